@@ -506,8 +506,35 @@ fn group_api_tokens_out(g: &wow_wmo::group_parser::WmoGroup) -> Toks {
     t.insert("doodad_refs", dtok(&g.doodad_refs));
     t
 }
+fn f3(v: &Vec3) -> [u32; 3] {
+    v3bits(v)
+}
 fn root_api_tokens_in(r: &WmoRoot) -> Toks {
     let mut t = Toks::new();
+    let rgba = |c: &Color| [c.r, c.g, c.b, c.a];
+    let bgra = |c: &Color| [c.b, c.g, c.r, c.a];
+    t.insert(
+        "materials",
+        dtok(&r.materials.iter().map(|m| (m.flags.bits(), m.shader, m.blend_mode, m.texture1, rgba(&m.emissive_color), rgba(&m.sidn_color), m.texture2, rgba(&m.diffuse_color), m.ground_type)).collect::<Vec<_>>()),
+    );
+    t.insert(
+        "portals",
+        dtok(&r.portals.iter().map(|p| (p.vertices.iter().map(f3).collect::<Vec<_>>(), f3(&p.normal))).collect::<Vec<_>>()),
+    );
+    t.insert("portal_refs", dtok(&r.portal_references.iter().map(|p| (p.portal_index, p.group_index, p.side)).collect::<Vec<_>>()));
+    t.insert(
+        "lights",
+        dtok(&r.lights.iter().map(|l| (l.light_type as u8, l.use_attenuation as u8, bgra(&l.color), f3(&l.position), l.intensity.to_bits(),
+            [l.rotation[0].to_bits(), l.rotation[1].to_bits(), l.rotation[2].to_bits(), l.rotation[3].to_bits()],
+            l.attenuation_start.to_bits(), l.attenuation_end.to_bits())).collect::<Vec<_>>()),
+    );
+    t.insert("doodad_sets", dtok(&r.doodad_sets.iter().map(|d| (d.name.clone(), d.start_doodad, d.n_doodads)).collect::<Vec<_>>()));
+    t.insert(
+        "doodad_geom",
+        dtok(&r.doodad_defs.iter().map(|d| (f3(&d.position), [d.orientation[0].to_bits(), d.orientation[1].to_bits(), d.orientation[2].to_bits(), d.orientation[3].to_bits()],
+            d.scale.to_bits(), bgra(&d.color))).collect::<Vec<_>>()),
+    );
+    t.insert("group_geom", dtok(&r.groups.iter().map(|g| (g.flags.bits(), f3(&g.bounding_box.min), f3(&g.bounding_box.max))).collect::<Vec<_>>()));
     t.insert("textures", dtok(&r.textures));
     t.insert("group_names", dtok(&r.groups.iter().map(|g| g.name.clone()).collect::<Vec<_>>()));
     let n = r.doodad_defs.len() as u32;
@@ -527,6 +554,41 @@ fn root_api_tokens_in(r: &WmoRoot) -> Toks {
 }
 fn root_api_tokens_out(r: &wow_wmo::root_parser::WmoRoot) -> Toks {
     let mut t = Toks::new();
+    let a3 = |v: &[f32; 3]| [v[0].to_bits(), v[1].to_bits(), v[2].to_bits()];
+    t.insert(
+        "materials",
+        dtok(&r.materials.iter().map(|m| (m.flags, m.shader, m.blend_mode, m.texture_1, m.emissive_color, m.frame_emissive_color, m.texture_2, m.diff_color, m.ground_type)).collect::<Vec<_>>()),
+    );
+    t.insert(
+        "portals",
+        dtok(&r.portals.iter().map(|p| {
+            let vs: Vec<[u32; 3]> = (0..p.n_vertices as usize)
+                .filter_map(|i| r.portal_vertices.get(p.start_vertex as usize + i))
+                .map(|v| [v.x.to_bits(), v.y.to_bits(), v.z.to_bits()])
+                .collect();
+            (vs, [p.normal.x.to_bits(), p.normal.y.to_bits(), p.normal.z.to_bits()])
+        }).collect::<Vec<_>>()),
+    );
+    t.insert("portal_refs", dtok(&r.portal_refs.iter().map(|p| (p.portal_index, p.group_index, p.side as u16)).collect::<Vec<_>>()));
+    t.insert(
+        "lights",
+        dtok(&r.lights.iter().map(|l| (l.light_type, l.use_attenuation, l.color, a3(&l.position), l.intensity.to_bits(),
+            [l.rotation[0].to_bits(), l.rotation[1].to_bits(), l.rotation[2].to_bits(), l.rotation[3].to_bits()],
+            l.attenuation_start.to_bits(), l.attenuation_end.to_bits())).collect::<Vec<_>>()),
+    );
+    t.insert(
+        "doodad_sets",
+        dtok(&r.doodad_sets.iter().map(|d| {
+            let n = d.name.iter().position(|&b| b == 0).unwrap_or(20);
+            (String::from_utf8_lossy(&d.name[..n]).to_string(), d.start_index, d.count)
+        }).collect::<Vec<_>>()),
+    );
+    t.insert(
+        "doodad_geom",
+        dtok(&r.doodad_defs.iter().map(|d| (a3(&d.position), [d.orientation[0].to_bits(), d.orientation[1].to_bits(), d.orientation[2].to_bits(), d.orientation[3].to_bits()],
+            d.scale.to_bits(), d.color)).collect::<Vec<_>>()),
+    );
+    t.insert("group_geom", dtok(&r.group_info.iter().map(|g| (g.flags, a3(&g.bounding_box_min), a3(&g.bounding_box_max))).collect::<Vec<_>>()));
     t.insert("textures", dtok(&r.textures));
     t.insert("group_names", dtok(&r.group_names));
     t.insert(
